@@ -145,6 +145,9 @@ func (w *world) line(tok int) string {
 	total := 48
 	if tok%3 == 0 {
 		total = 10000 // its first half alone exceeds the read buffer
+		if (tok/3)%2 == 0 {
+			total = 70000 // ... and some are longer than 64 KiB (one line, one event)
+		}
 	}
 	const al = "abcdefghijklmnopqrstuvwxyz0123456789 =:()\"'"
 	prefix := fmt.Sprintf("L%d-", tok)
